@@ -18,13 +18,20 @@ def lattice_module():
     return m
 
 
+_SITES = {}
+
+
 def _site(kind='spin'):
+    """site objects are never modified by the lattice: one instance per process"""
     from tenpy.networks import site as s
-    if kind == 'spin':
-        return s.SpinHalfSite(None)
-    if kind == 'fermion':
-        return s.FermionSite(None)
-    raise ValueError(kind)
+    if kind not in _SITES:
+        if kind == 'spin':
+            _SITES[kind] = s.SpinHalfSite(None)
+        elif kind == 'fermion':
+            _SITES[kind] = s.FermionSite(None)
+        else:
+            raise ValueError(kind)
+    return _SITES[kind]
 
 
 def _order_arg(order):
@@ -182,17 +189,40 @@ def count_true(ctx, conds):
 
 
 def rows_equal(ctx, g, e):
-    return ctx.And(*[(a == b) for a, b in zip(g, e)])
+    conds = []
+    for a, b in zip(g, e):
+        if (_is_int(a) and _is_int(b)) or isinstance(a, str):
+            if a != b:
+                return False
+            continue
+        c = (a == b)
+        if isinstance(c, (bool, np.bool_)):
+            if not c:
+                return False
+            continue
+        conds.append(c)
+    if not conds:
+        return True
+    return ctx.And(*conds)
 
 
 def same_multiset(ctx, got_rows, exp_rows, label):
-    """order independent: same number of rows and every expected row occurs exactly once"""
+    """order independent: same number of rows and every expected row occurs exactly once among the returned ones
+    (one solver query for the conjunction over all expected rows)"""
     ok = ctx.prove(len(got_rows) == len(exp_rows), label + ': number of couplings')
     if not ok:
-        return
+        return False
+    if not exp_rows:
+        return True
+    each = []
     for e in exp_rows:
         conds = [rows_equal(ctx, g, e) for g in got_rows]
-        ctx.prove(count_true(ctx, conds) == 1, label + ': every expected coupling is returned exactly once')
+        each.append(count_true(ctx, conds) == 1)
+    return ctx.prove(ctx.And(*each), label + ': every expected coupling is returned exactly once')
+
+
+def _is_int(v):
+    return isinstance(v, (int, np.integer))
 
 
 def _min0(v):
@@ -200,44 +230,93 @@ def _min0(v):
     return v if bool(v < 0) else 0
 
 
-def canonical(ctx, ref, y):
-    """bring unit-cell coordinates `y` (ints / symbolic) into the lattice under the boundary conditions.
-
-    Returns (exists: bool-like, coords inside [0,L) per direction, w0: number of windings along x)"""
-    y = list(y)
-    ok = True
-    xs = 0
-    for a in range(1, ref.dim):
-        w = y[a] // ref.Ls[a]
-        if ref.open[a]:
-            ok = ctx.And(ok, w == 0)
-        else:
-            y[a] = y[a] - w * ref.Ls[a]
-            if ref.shift is not None and ref.shift[a - 1] != 0:
-                # going once around direction a in positive direction shifts by -shift * basis[0]
-                xs = xs + w * ref.shift[a - 1]
-    y[0] = y[0] - xs
-    w0 = y[0] // ref.Ls[0]
-    if ref.open[0]:
-        ok = ctx.And(ok, w0 == 0)
-    else:
-        y[0] = y[0] - w0 * ref.Ls[0]
-    return ok, y, w0
+def _split(v, L):
+    """v = k * L + r with a CONCRETE remainder r in range(L) (symbolic v: every feasible remainder is a path) and
+    the quotient k (int or symbolic)"""
+    if _is_int(v):
+        return int(v) // L, int(v) % L
+    r = int(v % L)
+    return v // L, r
 
 
-def own_mps_index(ctx, ref, y, u):
-    """MPS index of the site at unit cell `y`, unit-cell site `u`; None if there is no such site.
+class Disp:
+    """a displacement vector prepared for the reference formulas: along every periodic direction it is split into
+    (windings, concrete remainder) once per path, so that the coordinates of every target site are concrete and
+    only the number of windings along x stays symbolic"""
+
+    def __init__(self, ctx, ref, d):
+        self.ref = ref
+        self.d = list(d)
+        self.kr = {}
+        for a in range(1, ref.dim):
+            if not ref.open[a]:
+                self.kr[a] = _split(d[a], ref.Ls[a])
+            elif not _is_int(d[a]):
+                raise ValueError("displacements along open directions are enumerated (concrete)")
+        # part of the x displacement that is the same for all sites: dx0 - sum_a shift_a * windings_a
+        T = d[0]
+        if ref.shift is not None:
+            for a, (k, r) in self.kr.items():
+                T = T - k * ref.shift[a - 1]
+        self.T = T
+        self.T_kr = None if ref.open[0] else _split(T, ref.Ls[0])
+
+    def target(self, ctx, x):
+        """unit cell reached from the unit cell `x` (concrete ints): (coords inside the lattice, windings along x)
+        or None if an open boundary is crossed"""
+        ref = self.ref
+        y = [None] * ref.dim
+        xoff = x[0]
+        for a in range(1, ref.dim):
+            if ref.open[a]:
+                y[a] = x[a] + self.d[a]
+                if not 0 <= y[a] < ref.Ls[a]:
+                    return None
+            else:
+                k, r = self.kr[a]
+                c = (x[a] + r) // ref.Ls[a]
+                y[a] = (x[a] + r) % ref.Ls[a]
+                if ref.shift is not None:
+                    # going once around direction a in positive direction shifts by -shift * basis[0]
+                    xoff = xoff - c * ref.shift[a - 1]
+        if ref.open[0]:
+            y0 = xoff + self.T
+            if not bool((y0 >= 0) & (y0 < ref.Ls[0])):
+                return None
+            y[0] = int(y0)
+            return y, 0
+        k, r = self.T_kr
+        y[0] = (xoff + r) % ref.Ls[0]
+        return y, k + (xoff + r) // ref.Ls[0]
+
+
+def own_mps_index(ctx, ref, x, disp, u):
+    """MPS index of the site (x + displacement, u); None if there is no such site.
     For infinite MPS the index is continued periodically: one winding along x = N sites."""
-    ok, yc, w0 = canonical(ctx, ref, y)
-    if not bool(ok):
+    t = disp.target(ctx, x)
+    if t is None:
         return None
-    key = tuple(int(v) for v in yc) + (int(u), )
-    j0 = ref.table.get(key)
+    y, w0 = t
+    j0 = ref.table.get(tuple(y) + (int(u), ))
     if j0 is None:
         return None
     if ref.infinite:
         return j0 + w0 * ref.N
     return j0
+
+
+def own_lat2mps(ctx, ref, x, u):
+    """MPS index of the lattice index (x.., u) with possibly symbolic entries (None: no such site).
+    Coordinates inside the lattice are bounded and concretised; x0 may be unbounded for infinite MPS."""
+    if ref.infinite:
+        k, r = _split(x[0], ref.Ls[0])
+    else:
+        k, r = 0, int(x[0])
+    key = (r, ) + tuple(int(v) for v in x[1:]) + (int(u), )
+    j0 = ref.table.get(key)
+    if j0 is None:
+        return None
+    return j0 + k * ref.N if ref.infinite else j0
 
 
 def _min_of(idx):
@@ -277,25 +356,29 @@ def spec_couplings(ctx, ref, u1, u2, dx):
     add_coupling: lower left corner of the box spanned by the coupling (modulo coupling_shape)."""
     shape = spec_coupling_shape(ref, [[0] * ref.dim, dx])
     n_first = ref.Nh if ref.helical else ref.N
+    disp = Disp(ctx, ref, dx)
+    low = [_min0(d) for d in dx]
     rows = []
     for i0 in range(n_first):
         row = ref.order[i0]
         if row[-1] != u1:
             continue
         x = list(row[:-1])
-        j = own_mps_index(ctx, ref, [x[a] + dx[a] for a in range(ref.dim)], u2)
+        j = own_mps_index(ctx, ref, x, disp, u2)
         if j is None:
             continue
         i, j = _normalise(ctx, ref, [i0, j])
-        corner = [(x[a] + _min0(dx[a])) % shape[a] for a in range(ref.dim)]
+        corner = [((x[a] + low[a]) % shape[a]) if shape[a] > 0 else 0 for a in range(ref.dim)]
         rows.append([i, j] + corner)
     return rows, shape
 
 
 def spec_multi_couplings(ctx, ref, ops):
-    """ops: list of (dx vector, u).  One coupling per position of the box (corner) such that all sites exist.
+    """ops: list of (dx vector, u).  All tuples of existing sites (x + dx_0, u_0), ..., (x + dx_{M-1}, u_{M-1}), one
+    representative per translation class: enumerated over the position of the FIRST operator's site (not over box
+    positions, which is how the code under check enumerates them).
 
-    Returns rows [i_0, ..., i_{M-1}, corner_0, ...]."""
+    Returns rows [i_0, ..., i_{M-1}, corner_0, ...] with corner = lower left corner of the box (modulo coupling_shape)."""
     dxs = [d for d, _ in ops]
     shape = spec_coupling_shape(ref, dxs)
     mins = []
@@ -306,22 +389,25 @@ def spec_multi_couplings(ctx, ref, ops):
                 m = d[a]
         mins.append(m)
     rows = []
-    if any(s <= 0 for s in shape):
-        return rows, shape
-    for corner in itertools.product(*[range(s) for s in shape]):
-        idx = []
-        for d, u in ops:
-            j = own_mps_index(ctx, ref, [corner[a] + d[a] - mins[a] for a in range(ref.dim)], u)
+    d0, u0 = ops[0]
+    disps = [Disp(ctx, ref, [d[a] - d0[a] for a in range(ref.dim)]) for d in dxs[1:]]
+    low = [mins[a] - d0[a] for a in range(ref.dim)]
+    n_first = ref.Nh if ref.helical else ref.N
+    for i0 in range(n_first):
+        row = ref.order[i0]
+        if row[-1] != u0:
+            continue
+        x = list(row[:-1])
+        idx = [i0]
+        for (d, u), disp in zip(ops[1:], disps):
+            j = own_mps_index(ctx, ref, x, disp, u)
             if j is None:
                 idx = None
                 break
             idx.append(j)
         if idx is None:
             continue
-        # helical: the box positions enumerate the translation classes of the larger regular lattice; exactly
-        # one member of each class of the helical unit cell (Nh sites) has 0 <= min < Nh
-        idx = _normalise(ctx, ref, idx, ref.N)
-        if ref.helical and not bool(_min_of(idx) < ref.Nh):
-            continue
-        rows.append(list(idx) + list(corner))
+        idx = _normalise(ctx, ref, idx)
+        corner = [((x[a] + low[a]) % shape[a]) if shape[a] > 0 else 0 for a in range(ref.dim)]
+        rows.append(list(idx) + corner)
     return rows, shape
